@@ -33,6 +33,7 @@ class Node:
 
 class World:
     """mode: full | nulls | allnull | empty | single | sweep:<k>"""
+    BUDGET = 4000
 
     def __init__(self, schema: GraphQLSchema, seed: int, mode: str = "full", rotation: int = 0, custom_scalar_values=None):
         self.schema = schema
@@ -49,6 +50,7 @@ class World:
         self.runtime_types_used: Dict[str, set] = {}
         self.custom_scalar_values = custom_scalar_values or {}
         self.scalar_tokens: Dict[str, List[Any]] = {}
+        self.made = 0
 
     # -- decisions
     def null_here(self) -> bool:
@@ -110,7 +112,11 @@ class World:
         if nullable and self.null_here():
             return None
         if isinstance(t, GraphQLList):
-            return [self.make(t.of_type) for _ in range(self.list_len())]
+            n = self.list_len()
+            if self.made > self.BUDGET:
+                n = min(n, 1)  # nested lists of composite types multiply: past the budget the response stays conformant but stops growing
+            return [self.make(t.of_type) for _ in range(n)]
+        self.made += 1
         if is_leaf_type(t):
             return self.token(t)
         if is_abstract_type(t):
